@@ -411,8 +411,9 @@ def conn_line(s, chunks, cor, rb, wb):
 
 def parse_conn_out(a):
     f = a.split(" ")
-    if len(f) != 4 or not f[0].startswith("wire=") or not f[2].startswith("r="):
+    if len(f) != 5 or f[0] != "ok" or not f[1].startswith("wire=") or not f[3].startswith("r="):
         return None
+    f = f[1:]
     wire = unhex(f[0][5:])
     werr = [] if f[1] == "w=-" else [int(x.split(":")[0]) for x in f[1][2:].split(",")]
     evs = f[2][2:].split(",")
@@ -570,10 +571,10 @@ def run(c):
             lines2.append(ln)
     res2 = c.tie("read", lines2, impl, model)
     for l, a, _ in res2:
-        if not a.startswith("r="):
+        if not a.startswith("ok r="):
             c.oracle_fail(l, "reader-only case not executed: " + a[:60], l)
             continue
-        evs = a.split(" ")[0][2:].split(",")
+        evs = a.split(" ")[1][2:].split(",")
         c.count("read-final:" + evs[-1][2:])
         claim = (l.split(" ") + ["-"])[6]
         if claim != "-" and (len(evs) - 1 != int(claim) or evs[-1] == "e:eof"):
